@@ -6,6 +6,8 @@
                                         (name -> files), source [src], overwrite flag [ow];
                                         r = (existing, new, error) as returned;
      tbl                                what each file content answers to get-plugin-metadata;
+     tbl_of rt                          the table obtained from what each content PRINTS (rt) by the model
+                                        of plugin.validate ([validate]); the harness gives rt;
      candidate tbl src = Some (n, v)    declarative reading of a usable source: its plugin
                                         executable (the file itself / the only executable file
                                         named notation-{n} among the regular top-level files /
